@@ -2,6 +2,7 @@ import python_minifier.ast_compat as ast
 from python_minifier.ast_annotation import get_parent, add_parent as add_node_parent
 
 from python_minifier.rename.mapper import add_parent
+from python_minifier.util import is_constant_node
 
 
 class NodeVisitor(object):
@@ -46,6 +47,32 @@ class SuiteTransformer(NodeVisitor):
 
     def __call__(self, node):
         return self.visit(node)
+
+    def without_new_docstring(self, original, suite, parent):
+        """
+        Make sure a string statement has not become a docstring
+
+        When the statements in front of a string statement are removed it would become the first statement
+        of the module, class or function, which makes it the docstring.
+
+        :param original: The statements before any were removed
+        :param suite: The remaining statements
+        :param parent: The node the statements belong to
+        :return: The remaining statements, with a leading string statement kept out of the docstring position
+        :rtype: list[ast.AST]
+
+        """
+
+        def is_string_statement(node):
+            return isinstance(node, ast.Expr) and is_constant_node(node.value, ast.Str)
+
+        if not isinstance(parent, (ast.Module, ast.FunctionDef, ast.AsyncFunctionDef, ast.ClassDef)):
+            return suite
+
+        if is_string_statement(suite[0]) and not is_string_statement(original[0]):
+            return [self.add_child(ast.Expr(value=ast.Num(0)), parent=parent)] + suite
+
+        return suite
 
     def visit_ClassDef(self, node):
         node.bases = [self.visit(b) for b in node.bases]
